@@ -4,7 +4,7 @@
    amount of fuel. *)
 From Coq Require Import ZArith List Lia Bool ZifyBool.
 Require Import Base.Bits Base.Iter Gen.Consts Gen.Types Gen.Preds Gen.PsiGen.
-Require Import Model.Packet Proofs.ParseGenBits Proofs.ParseGenSim.
+Require Import Model.Packet Model.Desc Proofs.ParseGenBits Proofs.ParseGenSim.
 Import ListNotations.
 Open Scope Z_scope.
 
@@ -125,6 +125,34 @@ Qed.
 (* the fuel a loop needs from iterator i when every round makes progress and the loop stops at offset e at the latest *)
 Definition enough (k : nat) (e : Z) (i : iter) : Prop :=
   (1 <= k)%nat /\ (0 <= ioff i -> (Z.to_nat (Z.min e (ilen i) - ioff i) < k)%nat).
+
+(* `for i.Offset() < e { item }` of Model/Desc.v: every sufficient amount of fuel gives the same result *)
+Lemma iloop_fuel_unfold {A} (item : IM A) e k i :
+  Model.Desc.iloop_fuel (S k) e item i =
+  if ioff i <? e then
+    match item i with
+    | Ok (a, i1) => match Model.Desc.iloop_fuel k e item i1 with Ok (r, i2) => Ok (a :: r, i2) | Err c => Err c | Panic => Panic end
+    | Err c => Err c
+    | Panic => Panic
+    end
+  else Ok ([], i).
+Proof.
+  cbn [Model.Desc.iloop_fuel]. unfold ibind, ioffset, iret. destruct (ioff i <? e); [|reflexivity].
+  destruct (item i) as [[a i1]|c|]; reflexivity.
+Qed.
+
+Lemma iloop_fuel_enough {A} (item : IM A) e : progress item ->
+  forall k1 k2 i, enough k1 e i -> enough k2 e i -> Model.Desc.iloop_fuel k1 e item i = Model.Desc.iloop_fuel k2 e item i.
+Proof.
+  intros Hp. induction k1 as [|k1 IH]; intros k2 i [H1 H2] [H3 H4]; [lia|]. destruct k2 as [|k2]; [lia|].
+  rewrite !iloop_fuel_unfold. destruct (ioff i <? e) eqn:E; [|reflexivity].
+  destruct (item i) as [[a i1]|c|] eqn:Ei; try reflexivity.
+  destruct (Hp _ _ _ Ei) as (P1 & P2 & P3).
+  assert (Hl : ilen i1 = ilen i) by (unfold ilen; rewrite P3; reflexivity).
+  rewrite (IH k2 i1); [reflexivity| |]; unfold enough; rewrite Hl; (split; [lia|]); intros _.
+  - specialize (H2 ltac:(lia)). lia.
+  - specialize (H4 ltac:(lia)). lia.
+Qed.
 
 Lemma enough_len e i : enough (S (Z.to_nat (ilen i))) e i.
 Proof. split; [lia|]. intros H. lia. Qed.
